@@ -15,6 +15,7 @@ import (
 type MapState struct {
 	Dom *Term // (Array K Bool)
 	Val *Term // (Array K V)
+	T   *types.Map
 }
 
 type MapIter struct {
@@ -70,7 +71,7 @@ func (e *Engine) newMap(st *State, t *types.Map, name string, empty bool) Val {
 	ds := Sort(fmt.Sprintf("(Array %s Bool)", ks))
 	vsrt := Sort(fmt.Sprintf("(Array %s %s)", ks, vs))
 	c := st.newCell(name)
-	ms := &MapState{}
+	ms := &MapState{T: t}
 	if empty {
 		ms.Dom = mk(ds, fmt.Sprintf("((as const %s) false)", ds))
 	} else {
@@ -138,6 +139,7 @@ func (e *Engine) mapUpdate(st *State, fr *Frame, in *ssa.MapUpdate) {
 	st.heap[m.C.ID] = &MapState{
 		Dom: mk(ms.Dom.S, fmt.Sprintf("(store %s %s true)", ms.Dom.T, k.T)),
 		Val: mk(ms.Val.S, fmt.Sprintf("(store %s %s %s)", ms.Val.T, k.T, v.T)),
+		T:   ms.T,
 	}
 }
 
